@@ -27,7 +27,7 @@ ASSUMPTIONS = [
     "name-based resolution of helper lambdas and local aliases inside the anchor functions",
 ]
 
-MIN_INSTANCES = {"R-01i": 10, "R-01f": 70, "R-01e": 60, "R-01a": 60, "R-01b": 40, "R-01c": 30, "R-01d": 6, "R-01g": 3, "R-01h": 4}
+MIN_INSTANCES = {"R-01m": 21, "R-01i": 10, "R-01f": 70, "R-01e": 60, "R-01a": 60, "R-01b": 40, "R-01c": 30, "R-01d": 6, "R-01g": 3, "R-01h": 4}
 
 
 # ----------------------------------------------------------------------------------------------- R-01a
@@ -245,6 +245,39 @@ def r01c(model, ctx):
             continue
         facts, errors = pyrtl_common.analyse_function(model, f"_RHSValueCompiler.{name}")
         pyrtl_common.report(ctx, "R-01c", facts, errors)
+    # a part select shifts its operand right by a run-time amount that may pass the operand's MSB: what is read there are
+    # sign bits (the evaluator shifts the signed Python value, `$shift` has A_SIGNED), so the operand must be sign-normalised;
+    # masking it reads zeros instead
+    fp = model.func(f"{PYRTL}::_RHSValueCompiler.on_Part")
+    shifted = []
+    import re as _re
+    okp = True
+    for node in ast.walk(fp):
+        t = template_of(node) if isinstance(node, (ast.JoinedStr, ast.BinOp)) else None
+        if t is None or ">>" not in t.skeleton():
+            continue
+        left = t.skeleton().split(">>")[0].rstrip()
+        # the operand of >> is the maximal balanced suffix of what precedes it
+        if left.endswith(")"):
+            depth, k = 0, len(left)
+            while k > 0:
+                k -= 1
+                depth += (left[k] == ")") - (left[k] == "(")
+                if depth == 0:
+                    break
+            operand = left[k:]
+        else:
+            operand = _re.search(r"(\{\d+\})$", left).group(1) if _re.search(r"(\{\d+\})$", left) else left
+        holes = [t.holes[int(n)] for n in _re.findall(r"\{(\d+)\}", operand)]
+        if not any("value.value" in h.src for h in holes):
+            continue
+        shifted.append((operand, [h.src for h in holes]))
+        okp = okp and _re.fullmatch(r"\{\d+\}", operand) is not None and holes[0].src == "self.sign(value.value)"
+    need(shifted, "_RHSValueCompiler.on_Part: the `operand >> offset` template was not found")
+    ctx.check(okp, "R-01c", "_RHSValueCompiler.on_Part:operand-sign", "the shifted operand is self.sign(value.value)",
+              f"on_Part must shift the sign-normalised operand (self.sign(value.value)); found {shifted}: a "
+              f"masked operand makes a select that reaches past the MSB of a negative signed value read zeros where the "
+              f"evaluator and RTLIL read sign bits", f"{PYRTL}:{fp.lineno}")
     # on_Const / on_Signal produce normalised text by construction: Const.value and slot values are in range
     f = model.func(f"{PYRTL}::_RHSValueCompiler.on_Const")
     ok = any(isinstance(s, ast.Return) and template_of(s.value) is not None and
@@ -905,4 +938,13 @@ else:
     raise TypeError()
 """
 
-RULES = [("R-01i", r01i), ("R-01f", r01f), ("R-01e", r01e), ("R-01a", r01a), ("R-01b", r01b), ("R-01c", r01c), ("R-01d", r01d), ("R-01g", r01g), ("R-01h", r01h)]
+
+def r01m(model, ctx):
+    """the default value/statement transformation every design passes through (Fragment.prepare -> DomainLowerer), casts and
+    pattern normalisation: compared with their reference semantics (sa/refs/c01_xfrm.py, c01_ast.py) by path summary"""
+    from .reflib import run_ref_file
+    run_ref_file(model, ctx, "R-01m", "c01_xfrm")
+    run_ref_file(model, ctx, "R-01m", "c01_ast", only=lambda r: "FSM" not in r)
+
+
+RULES = [("R-01m", r01m), ("R-01i", r01i), ("R-01f", r01f), ("R-01e", r01e), ("R-01a", r01a), ("R-01b", r01b), ("R-01c", r01c), ("R-01d", r01d), ("R-01g", r01g), ("R-01h", r01h)]
